@@ -5,8 +5,86 @@ def T(mod, names):
 
 PROPS = {}
 
+import json, os, subprocess, time
+from concurrent.futures import ThreadPoolExecutor
+
+
+def extra_c14(tier, seed, workdir, sh, GH, GM):
+    """Varint tie, digest-based: quick = 16 shards of 2^16 consecutive values at random places plus
+    the shards around every framing boundary; thorough = ALL 2^32 values (exhaustive), 16 shards."""
+    if tier == "thorough":
+        shards = [(i << 28, 1 << 28) for i in range(16)]
+    else:
+        import random
+        rnd = random.Random(seed)
+        shards = [(rnd.randrange(0, (1 << 32) - (1 << 16)), 1 << 16) for _ in range(8)]
+        shards += [(max(0, (1 << b) - (1 << 15)), 1 << 16) for b in (7, 14, 21, 28)] + [((1 << 32) - (1 << 16), 1 << 16)]
+
+    def one(sh_):
+        start, count = sh_
+        a = subprocess.run([GH, "vshard", str(start), str(count)], stdout=subprocess.PIPE, text=True).stdout.strip().splitlines()[-1]
+        b = subprocess.run([GM], input=f"vrange {start} {count} 1\n", stdout=subprocess.PIPE, text=True).stdout.split("\t")[0].strip()
+        return start, count, a, b
+
+    def first_diff(start, count):
+        # bisect to the first value on which the two sides differ
+        while count > 1:
+            half = count // 2
+            _, _, a, b = one((start, half))
+            if a != b:
+                count = half
+            else:
+                start, count = start + half, count - half
+        return start
+
+    with ThreadPoolExecutor(max_workers=16) as ex:
+        rows = list(ex.map(one, shards))
+    findings, evals = [], 0
+    for start, count, a, b in rows:
+        evals += count
+        if a != b:
+            v = first_diff(start, count)
+            rc, o = sh([GH, "gen", "varint", "0", "0"])
+            # classify on the implementation itself: does the real codec round-trip this value?
+            script = os.path.join(workdir, f"v{v}.script")
+            open(script, "w").write(f"S varint-first-diff\nvenc {v}\n")
+            rc, o = sh([GH, "run", script, script + ".tr"])
+            impl = open(script + ".tr").read().split("\n")[1].split("\t")[1] if os.path.exists(script + ".tr") else "?"
+            kind = "oracle" if impl.startswith("ORACLE-FAIL") else "model"
+            findings.append(dict(kind=kind, scenario="varint-first-diff", cfg="", line=0, op=f"venc {v}", impl=impl, model=b, spec="-",
+                                 note=f"shard [{start}, {start + count}) digests differ (impl {a}, model {b}); first differing value {v}",
+                                 script=[f"S varint-first-diff", f"venc {v}"]))
+    return [dict(evaluations=evals, findings=findings, nontrivial=[("vshard", s, c) for s, c, _, _ in rows],
+                 samples=[{"shard_start": rows[0][0], "count": rows[0][1], "impl_digest": rows[0][2], "model_digest": rows[0][3]}],
+                 stats={"varint_values_compared": evals, "varint_shards": len(rows)})]
+
+
+def extra_c17(tier, seed, workdir, sh, GH, GM):
+    """Pointer-level half of C17 (explored, not proved): the reduced sorter / reader scenarios of
+    miri/ under Miri. Thorough tier only (needs the Miri sysroot, ~1 min cold)."""
+    if tier != "thorough":
+        return []
+    root = os.path.dirname(os.path.abspath(__file__))
+    mdir = os.path.join(root, "miri")
+    if not os.path.exists(os.path.join(mdir, "Cargo.lock")):
+        import shutil
+        shutil.copy("/repo/Cargo.lock", os.path.join(mdir, "Cargo.lock"))
+    rc, out = sh(["cargo", "+nightly", "miri", "run"], cwd=mdir, timeout=3000)
+    ok = rc == 0 and "miri-scenarios-ok" in out
+    findings = []
+    if not ok:
+        tail = out[-1500:]
+        if "Undefined Behavior" in out or "panicked" in out:
+            findings.append(dict(kind="oracle", scenario="miri", cfg="", line=0, op="cargo +nightly miri run (verif/miri)", impl=tail[-400:], model="-", spec="-",
+                                 note="Miri reports undefined behaviour or a panic in the buffer / borrowed-entry paths", script=["# cd /verif/miri && cargo +nightly miri run"]))
+        else:
+            # Miri itself unavailable (e.g. sysroot cannot be built): not evidence either way
+            return [dict(evaluations=0, findings=[], nontrivial=[], samples=[{"miri": "unavailable", "output": tail[-300:]}], stats={"miri_unavailable": 1})]
+    return [dict(evaluations=1, findings=findings, nontrivial=[("miri", 1)], samples=[{"miri": "5 sorter cases + 1 reader case", "result": "ok" if ok else "failed"}], stats={"miri_runs": 1})]
+
 PROPS["C14"] = dict(
     module="Grenad.Props.C14",
+    extra=extra_c14,
     streams={"varint": (24, 200)},
     rules={},
     exhaustive_in="thorough",
@@ -47,5 +125,5 @@ PROPS["C12"] = dict(module="Grenad.Props.C12", streams={"fault": (16, 160)},
 PROPS["C15"] = dict(module="Grenad.Props.C15", streams={"write": (160, 1600), "unsorted": (80, 800)}, rules={"ops": ["finish", "ins"], "blocks": True})
 PROPS["C16"] = dict(module="Grenad.Props.C16", streams={"cursor": (160, 1600), "seek": (80, 800), "open": (32, 320)},
                     rules={"ops": ["c", "open", "file"], "loads": True, "fingerprint": False})
-PROPS["C17"] = dict(module="Grenad.Props.C17", streams={"sorter": (240, 2400)}, rules={"ops": ["sins", "snew", "sfinish"], "alloc": True})
+PROPS["C17"] = dict(extra=extra_c17, module="Grenad.Props.C17", streams={"sorter": (240, 2400)}, rules={"ops": ["sins", "snew", "sfinish"], "alloc": True})
 PROPS["C18"] = dict(module="Grenad.Props.C18", streams={"unsorted": (240, 2400)}, rules={"ops": ["ins", "finish"], "blocks": True})
